@@ -318,6 +318,25 @@ impl<'a, F: IVP> SolOut for DefaultSolOut<'a, F> {
                     // Check for terminal event
                     if let Some(limit) = config.terminal_count {
                         if self.event_hits[i] >= limit {
+                            // Requested output times that lie before the event inside this
+                            // step are still part of the solution: report them first.
+                            if let (Some(t_eval), Some(interp)) = (self.t_eval.as_ref(), interpolant) {
+                                let mut k = self.next_idx;
+                                while k < t_eval.len()
+                                    && (if forward { t_eval[k] <= event_t } else { t_eval[k] >= event_t })
+                                {
+                                    let inside = if forward { t_eval[k] >= xold - self.tol } else { t_eval[k] <= xold + self.tol };
+                                    if inside {
+                                        let mut yi = vec![0.0; y.len()];
+                                        interp.interpolate(t_eval[k], &mut yi);
+                                        self.t.push(t_eval[k]);
+                                        self.y.push(yi);
+                                    }
+                                    k += 1;
+                                }
+                                self.next_idx = k;
+                            }
+
                             // Add the terminal event point to the output
                             self.t.push(event_t);
                             self.y.push(event_y);
